@@ -360,6 +360,8 @@ def byte_extent(prog, fn, ptr, access_ty):
             for name, body in m_.types.items():
                 if name not in structs and '{' in body and '}' in body:
                     structs[name] = _split_top(body[body.index('{') + 1: body.rindex('}')])
+                    if '<{' in body:
+                        structs.setdefault('__packed__', set()).add(name)
         fn.mod._structs_layout = structs
     sz = _layout(access_ty, structs)
     if sz is None:
@@ -391,7 +393,8 @@ def byte_extent(prog, fn, ptr, access_ty):
                     fe = _layout(f_, structs)
                     if fe is None:
                         return None
-                    o = (o + fe[1] - 1) // fe[1] * fe[1]
+                    fa_ = 1 if cur in structs.get('__packed__', ()) else fe[1]
+                    o = (o + fa_ - 1) // fa_ * fa_
                     if k_ == i:
                         break
                     o += fe[0]
